@@ -313,15 +313,16 @@ func (d *TCPDialer) dial(addr string, dualStack bool, timeout time.Duration) (ne
 	d.startTCPAddrsClean()
 	var conn net.Conn
 	n := uint32(len(addrs)) // #nosec G115
-	for range n {
-		conn, err = d.tryDial(network, addrs[idx%n].String(), deadline, d.concurrencyCh)
+	for i := range n {
+		// idx is reduced before i is added: if the uint32 counter wrapped
+		// inside this loop, an address would be tried twice and another skipped.
+		conn, err = d.tryDial(network, addrs[(idx%n+i)%n].String(), deadline, d.concurrencyCh)
 		if err == nil {
 			return conn, nil
 		}
 		if errors.Is(err, ErrDialTimeout) {
 			return nil, err
 		}
-		idx++
 	}
 	return nil, err
 }
